@@ -178,6 +178,41 @@ def sibling(ctx, fx, ps, vreach):
         ctx.ok("C10.F2", None, "sign_alg-same-callee", "both parsers use %s" % list(callee.values())[0])
     elif len(callee) == 2:
         ctx.finding("C10.F2", None, "sign_alg-same-callee", "the parsers derive sign_alg with different functions: %s" % callee)
+    # disclosure list and KB-JWT: taken from the input as presented, element for element (no filtering / reordering adaptors)
+    LIST_OK = {"collect", "map", "into_iter", "iter", "split", "deref", "next", "next_back", "to_owned", "to_string", "clone", "as_str", "from", "into", "branch", "map_err", "from_str", "ok_or"}
+    for p in ps:
+        for fld, what in (("input_disclosures", "disclosure list"), ("unverified_input_key_binding_jwt", "key-binding JWT")):
+            ws = [w for w in (common.struct_field_writes(fx, COMMON, fld) or []) if w["fn"] is p and w["how"] in ("assign", "calldest")]
+            for w in ws:
+                v = w["value"]
+                pv = peel(v)
+                if pv.kind == "field" and pv.d.get("adt") == "SDJWTJson" and pv.d.get("name") in ("disclosures", "kb_jwt"):
+                    want = "disclosures" if fld == "input_disclosures" else "kb_jwt"
+                    if pv.d.get("name") == want:
+                        ctx.ok("C10.F2", p, "verbatim:%s" % fld, "%s is the `%s` member of the parsed object, unmodified" % (what, want), line=w["line"])
+                    else:
+                        ctx.finding("C10.F2", p, "verbatim:%s" % fld, "%s is taken from the `%s` member" % (what, pv.d.get("name")), line=w["line"])
+                    continue
+                names = set()
+                bad_closure = None
+                for x in walk(v):
+                    if x.kind == "call":
+                        names.add(x.d["term"].get("name"))
+                    if x.kind == "agg" and x.d["agg"].get("kind") == "closure" and x.d["agg"].get("def") in fx.fns:
+                        cf = fx.fns[x.d["agg"]["def"]]
+                        if (cf.file, cf.line) and not any(t.get("name") in ("to_string", "format", "new_display", "new", "must_use", "fmt", "to_owned") for _, t in cf.calls()) and list(cf.calls()):
+                            bad_closure = cf.name
+                        rv = peel(vals(cf).return_value())
+                        if not list(cf.calls()) and rv.kind != "param":
+                            bad_closure = cf.name
+                extra = sorted(n for n in names if n not in LIST_OK and n not in ("len", "must_use", "format", "new", "new_display", "to_string"))
+                has_split = any(x.kind == "call" and x.d["term"].get("name") == "split" and len(x.kids) == 2 and const_value(x.kids[1]) == "~" and peel(x.kids[0]).kind == "param" for x in walk(v))
+                if not has_split:
+                    ctx.finding("C10.F2", p, "verbatim:%s" % fld, "%s is not taken from the `~`-separated parts of the input: %s" % (what, vstr(v, 4)), line=w["line"])
+                elif extra:
+                    ctx.finding("C10.F2", p, "verbatim:%s" % fld, "%s is filtered / reshaped while parsing (%s): the Compact form of a presentation no longer carries the same %s as its JSON form" % (what, ", ".join(extra), what), line=w["line"])
+                else:
+                    ctx.ok("C10.F2", p, "verbatim:%s" % fld, "%s is the `~`-separated parts of the input, element for element" % what, line=w["line"])
     # JSON parser: jwt rebuilt from protected, payload, signature in that order
     for p in ps:
         pv = vals(p)
